@@ -8,8 +8,9 @@
      Proofs2.enc sp          the (start, end) pair _parse_request_range returns for sp *)
 From Coq Require Import List NArith ZArith.
 Import ListNotations.
-From TV Require Import Lib.Obs C27.Model C27.Spec C27.Run
-  C27.Proofs1 C27.Proofs2 C27.Proofs3 C27.Proofs4 C27.Proofs5.
+From TV Require Import Lib.Obs C27.Model C27.Spec C27.Run C27.PyPrims
+  C27.Proofs1 C27.Proofs2 C27.Proofs3 C27.Proofs4 C27.Proofs5 C27.Proofs6 C27.Proofs7
+  Gen.C27_src Gen.C27_equiv.
 
 (* 1. For every file, method, Range / If-None-Match / If-Modified-Since: the
    handler answers (never fails), and the answer is 200 with the whole file, or
@@ -108,3 +109,66 @@ Print Assumptions C27_checker_accepts_model.
 Theorem C27_decimal_print_read_roundtrip : forall n, read_dec (dec n) = Some n.
 Proof. exact read_dec_dec. Qed.
 Print Assumptions C27_decimal_print_read_roundtrip.
+
+(* 12. If-None-Match holding a list of entity tags (OWS "," OWS separated, strong or
+   W/ weak): 304 exactly when one of them equals the file's tag under weak comparison. *)
+Theorem C27_if_none_match_list_uses_weak_comparison :
+  forall q sep0 items,
+    q_etag q <> [] -> items <> [] ->
+    list_sep sep0 -> Forall (fun it => entity_tag (fst it) /\ list_sep (snd it)) items ->
+    q_inm q = Some (inm_header sep0 items) ->
+    not_modified q = existsb (fun it => weak_equal (fst it) (q_etag q)) items.
+Proof. exact not_modified_inm_list. Qed.
+Print Assumptions C27_if_none_match_list_uses_weak_comparison.
+
+Theorem C27_if_none_match_star_gives_304 :
+  forall q rest, q_etag q <> [] -> q_inm q = Some (42%N :: rest) -> not_modified q = true.
+Proof. exact inm_star_matches. Qed.
+Print Assumptions C27_if_none_match_star_gives_304.
+
+(* 13. If-Modified-Since decides only when If-None-Match is absent or empty (then 304 iff
+   the parsed date is >= the modification time); otherwise it is not consulted at all. *)
+Theorem C27_if_modified_since_only_without_if_none_match :
+  (forall q, (q_inm q = None \/ q_inm q = Some []) ->
+     not_modified q = match q_ims q with Some (Some t) => (q_mtime q <=? t)%Z | _ => false end)
+  /\ (forall q c v ims, q_inm q = Some (c :: v) ->
+       not_modified q = should_return_304 (q_etag q) (q_inm q) ims (q_mtime q)).
+Proof. split; [exact not_modified_by_date | exact not_modified_ignores_date]. Qed.
+Print Assumptions C27_if_modified_since_only_without_if_none_match.
+
+(* 14. The 304 decision precedes the Range header: a not-modified file is answered 304
+   whatever Range says (valid, unsatisfiable or malformed). *)
+Theorem C27_not_modified_precedes_range :
+  forall q h, not_modified q = true -> static_get (with_range q h) = Resp not_modified_response.
+Proof. exact not_modified_precedes_range. Qed.
+Print Assumptions C27_not_modified_precedes_range.
+
+(* 15. The read loop of get_content (for every chunk size > 0, tornado uses 64 KiB): for
+   every request it terminates within its fuel without failing, and the chunks written are
+   non-empty, at most chunk-size long, and concatenate to exactly the body of theorem 1. *)
+Theorem C27_chunked_read_loop_yields_the_body :
+  forall cmax q, (0 < cmax)%Z ->
+    exists r cs, static_get q = Resp r /\ static_get_chunks cmax q = LoopDone cs
+                 /\ concat cs = r_body r /\ Forall (chunk_ok cmax) cs.
+Proof. exact static_get_chunks_total. Qed.
+Print Assumptions C27_chunked_read_loop_yields_the_body.
+
+(* 16. The definitions regenerated from tornado/httputil.py on every run
+   (translators/c27_src.py -> Gen/C27_src.v) equal the model the theorems are about ... *)
+Theorem C27_source_functions_equal_model :
+  (forall v, src_int_or_none v = int_or_none v)
+  /\ (forall h, src_parse_request_range h = parse_request_range h)
+  /\ (forall s e t, src_get_content_range s e t = get_content_range s e t).
+Proof. exact (conj src_int_or_none_eq (conj src_parse_request_range_eq src_get_content_range_eq)). Qed.
+Print Assumptions C27_source_functions_equal_model.
+
+(* ... so theorem 8 holds of the translated source itself. *)
+Theorem C27_source_parser_accepts_exactly_the_grammar :
+  (forall h sp, denotes h sp -> src_parse_request_range h = Some (enc sp))
+  /\ (forall h r, src_parse_request_range h = Some r ->
+        r = (None, None)
+        \/ exists sp, r = enc sp /\ (denotes h sp \/ exists a, sp = SFrom a /\ dashless h a)).
+Proof.
+  split; intros h; rewrite src_parse_request_range_eq; [apply parse_complete | apply parse_sound].
+Qed.
+Print Assumptions C27_source_parser_accepts_exactly_the_grammar.
